@@ -10,6 +10,8 @@ import (
 	"testing"
 	"time"
 
+	"github.com/platinummonkey/go-concurrency-limits/core"
+
 	"pgregory.net/rapid"
 
 	"verifharness/kit"
@@ -135,5 +137,82 @@ func TestC02_parallel(t *testing.T) {
 		ID: "C02", Quick: 60, Thor: 1200,
 		Rule: "4-16 real threads x 200-20000 acquire/complete cycles (all outcomes, all strategies) through default / blocking / queue / pool stacks on the real clock; only the final state is judged: every counter zero, backlog empty, full re-admission; non-trivial = more threads than the limit",
 		Gen:  genC02P, Run: runC02P, NoShrink: true,
+	})
+}
+
+// Strategies used directly (without a limiter's lock) by concurrent callers: a token that was granted
+// and released gives its unit back, a refused attempt holds nothing (the simple strategy may overshoot
+// its limit by design; conservation must hold all the same).
+type c02sCase struct {
+	Strategy string `json:"strategy"` // simple | precise | lookup | predicate
+	Limit    int    `json:"limit"`
+	Workers  int    `json:"workers"`
+	Cycles   int    `json:"cycles"`
+	SetEvery int    `json:"set_every"` // one worker also moves the limit up and down
+}
+
+func TestC02_strategy_parallel(t *testing.T) {
+	kit.RequireMode(t, "std")
+	kit.Check(t, kit.Prop[c02sCase]{
+		ID: "C02", Quick: 60, Thor: 1500,
+		Rule: "4-16 real threads x 1000-20000 TryAcquire/Release cycles directly on one strategy (all four kinds) while the limit moves; final state only: busy and every bin zero, a refused attempt held nothing; non-trivial = more threads than the limit",
+		Gen: func(t *rapid.T) c02sCase {
+			return c02sCase{Strategy: rapid.SampledFrom([]string{"simple", "simple", "precise", "lookup", "predicate"}).Draw(t, "strategy"),
+				Limit: rapid.IntRange(1, 6).Draw(t, "limit"), Workers: rapid.IntRange(4, 16).Draw(t, "workers"),
+				Cycles: rapid.SampledFrom([]int{1000, 5000, 20000}).Draw(t, "cycles"), SetEvery: rapid.SampledFrom([]int{0, 7, 50}).Draw(t, "setEvery")}
+		},
+		Run: func(_ *testing.T, c c02sCase) kit.Outcome {
+			st, err := buildStack(StackCfg{Kind: "default", Strategy: c.Strategy, Limit: c.Limit}, nil, nil, time.Now())
+			if err != nil {
+				return kit.Outcome{Harness: err.Error()}
+			}
+			var strat interface {
+				TryAcquire(context.Context) (core.StrategyToken, bool)
+				SetLimit(int)
+			}
+			switch {
+			case st.simple != nil:
+				strat = st.simple
+			case st.precise != nil:
+				strat = st.precise
+			case st.lookup != nil:
+				strat = st.lookup
+			default:
+				strat = st.pred
+			}
+			start := make(chan struct{})
+			var wg sync.WaitGroup
+			for g := 0; g < c.Workers; g++ {
+				wg.Add(1)
+				go func(g int) {
+					defer wg.Done()
+					<-start
+					keys := []string{"a", "b", "zz", "c"}
+					for i := 0; i < c.Cycles; i++ {
+						tk, ok := strat.TryAcquire(stackKeyCtx(context.Background(), keys[(g+i)%len(keys)]))
+						if ok {
+							tk.Release()
+						}
+						if g == 0 && c.SetEvery > 0 && i%c.SetEvery == 0 {
+							strat.SetLimit(1 + (i/c.SetEvery)%(c.Limit+2))
+						}
+					}
+				}(g)
+			}
+			close(start)
+			wg.Wait()
+			if b := st.busy(); b != 0 {
+				return kit.Viol(c.Strategy+":direct-end-busy", "after %d threads x %d TryAcquire/Release cycles directly on the strategy: busy=%d with no token outstanding", c.Workers, c.Cycles, b)
+			}
+			if st.partitioned() {
+				for i, n := range st.binNames {
+					if b := st.binBusy(i); b != 0 {
+						return kit.Viol(c.Strategy+":direct-end-bin-busy", "bin %q busy=%d with no token outstanding", n, b)
+					}
+				}
+			}
+			return kit.Outcome{NonTrivial: c.Workers > c.Limit, Labels: []string{"strategy:" + c.Strategy}}
+		},
+		NoShrink: true,
 	})
 }
